@@ -24,6 +24,11 @@ StreamLen(f) == IF f.type = 2 THEN Len(f.data) + 10 ELSE IF f.dtype = 255 THEN L
 RECURSIVE Grans(_, _, _)
 Grans(cat, ids, j) == IF j > Len(ids) THEN 0 ELSE (IF Known(cat, ids[j]) THEN DK!NeedMax(StreamLen(FileOf(cat, ids[j]))) ELSE 1) + Grans(cat, ids, j + 1)
 FitsOn(cat, ids) == Len(ids) <= 72 /\ Grans(cat, ids, 1) <= 68
+\* ... and with the MINIMUM number of granules per file (C15 permits either count when a stream is an exact multiple of a granule): between the two the
+\* property leaves it open whether the files fit
+RECURSIVE GransMin(_, _, _)
+GransMin(cat, ids, j) == IF j > Len(ids) THEN 0 ELSE (IF Known(cat, ids[j]) THEN DK!NeedMin(StreamLen(FileOf(cat, ids[j]))) ELSE 1) + GransMin(cat, ids, j + 1)
+FitsOnMin(cat, ids) == Len(ids) <= 72 /\ GransMin(cat, ids, 1) <= 68
 GrFun(grans) == [g \in {grans[i].g : i \in DOMAIN grans} |-> grans[CHOOSE i \in DOMAIN grans : grans[i].g = g].b]
 \* what is at the path after the step, read with the specification's readers according to what was asked to be written
 Classify(cat, cmd, p) ==
@@ -39,10 +44,11 @@ SniffOK(pre, hooks) == \A i \in DOMAIN hooks : hooks[i].ev = "Open" =>
       /\ hooks[i].exists = (pre.kind # "absent")
       /\ (pre.kind = "cas" => hooks[i].sniffed = "CASSETTE") /\ (pre.kind = "dsk" => hooks[i].sniffed = "DISK")
 WroteOK(pre, cmd, cat, hooks) == \A i \in DOMAIN hooks : (hooks[i].ev = "Save" /\ hooks[i].wrote) =>
-      ((\E post \in Allowed(pre, cmd, LAMBDA ids : FitsOn(cat, ids)) : post # pre) \/ (cmd.app /\ Compatible(pre, cmd.sw)))   \* (an append of nothing rewrites the same content)
+      ((\E post \in Allowed(pre, cmd, LAMBDA ids : FitsOn(cat, ids)) \cup Allowed(pre, cmd, LAMBDA ids : FitsOnMin(cat, ids)) : post # pre) \/ (cmd.app /\ Compatible(pre, cmd.sw)))   \* (an append of nothing rewrites the same content)
 Judge1(cat, pre, e) ==
   LET cmd == e.cmd
       F(ids) == FitsOn(cat, ids)
+      Fm(ids) == FitsOnMin(cat, ids)
       post0 == IF e.same THEN pre ELSE Classify(cat, cmd, e.post)
       post == [post0 EXCEPT !.big = pre.big]          \* "big" (>= 161,280 bytes) is carried for classification only, not compared
       refused == post = pre /\ pre.kind # "absent" /\ ~(cmd.tool = "asm" /\ cmd.sw \in {"cas", "dsk"} /\ ~cmd.named) /\ cmd.sw # "list"
@@ -50,7 +56,7 @@ Judge1(cat, pre, e) ==
       \* compares the tool's reader with the specification's reader after every history)
       wantlist == [j \in DOMAIN pre.files |-> IF Known(cat, pre.files[j]) THEN [name |-> Name8(FileOf(cat, pre.files[j]).name), len |-> Len(FileOf(cat, pre.files[j]).data)]
                                                 ELSE [name |-> <<>>, len |-> -1]]
-      cl == [allowed |-> post \in Allowed(pre, cmd, F),
+      cl == [allowed |-> post \in Allowed(pre, cmd, F) \cup Allowed(pre, cmd, Fm),
              onlyappend |-> OnlyAppendModifies(pre, cmd, post),
              complete |-> CompleteImage(pre, cmd, post),
              rewritten |-> (post = pre /\ ~e.same) => (cmd.app /\ Compatible(pre, cmd.sw)),
@@ -60,7 +66,7 @@ Judge1(cat, pre, e) ==
              sniff |-> SniffOK(pre, e.hooks),
              wrote |-> WroteOK(pre, cmd, cat, e.hooks)
                        /\ ((~e.same /\ e.hooks # <<>>) => \E i \in DOMAIN e.hooks : e.hooks[i].ev = "Save" /\ e.hooks[i].wrote),      \* a changed target was announced by a Save event
-             capacity |-> CapacityRespected(pre, cmd, post, F),
+             capacity |-> CapacityRespected(pre, cmd, post, Fm),          \* must refuse only what does not fit even with the minimum number of granules
              \* C15: every file stored takes ONE directory slot - a disk that was written holds as many entries as before plus the new files
              oneslot |-> (post # pre /\ post.kind = "dsk") => Len(post.files) = (IF pre.kind = "dsk" THEN Len(pre.files) ELSE 0) + Len(cmd.new),
              newpath |-> NewPathHoldsNew(pre, cmd, post),
